@@ -22,6 +22,14 @@ CLAIMED = {
                  "termination, terminate-flood and brute-force optimality of the held assignment are decided by z3 on every path. Inside the listed "
                  "known-finding region (min objective with a negative cost) counterexamples are reported as KNOWN-FINDING, outside it any counterexample is a violation.",
             "Bounded: <= 3 variables (4 thorough), domain 2 (3 thorough), integer costs |c| <= 2^40; a run longer than 400 transitions counts as non-termination.", "4/C02", S),
+    "C03": ("S", "Real MgmComputation / Mgm2Computation objects with symbolic constraint and variable cost tables, arbitrary initial values, "
+                 "all offerer/partner/tie draws and FIFO schedules solver-chosen; z3 decides per path that the cost of the per-cycle global state never "
+                 "gets worse and that simultaneous movers are MGM2 partners. Two listed MGM2 findings are confined to region predicates and reported as KNOWN-FINDING.",
+            "Bounded: <= 3 variables (4 thorough), domain 2, stop_cycle 3 (arbitrary initial assignment makes a cycle an inductive step); canonical schedule on 3-variable "
+            "instances in quick; sleep-set independence assumption.", "4/C03", S),
+    "C04": ("S", "Same real MGM/MGM2 runs; for every complete cycle without a value change z3 decides that no single-variable change improves the "
+                 "symbolic global cost (1-opt), on every path. MGM2 in max mode is a listed known finding (region predicate).",
+            "Bounded as C03. Cycles beyond the third are covered only through the arbitrary initial assignment.", "4/C04", S),
     "C06": ("S", "find_arg_optimal / find_optimal / optimal_cost_value / projection and the A-DSA helper are executed on tables whose "
                  "entries are symbolic integers or infinities, and real DSA (A/B/C), A-DSA and DSA-tuto computations run on the bench; "
                  "z3 decides on every path that the returned set is exactly the arg-optimum set with its cost and that every DSA move is a best response.",
